@@ -56,6 +56,11 @@ FILES = {
     "OSq.Proofs.Bands4": {"C01": None},
     "OSq.Proofs.Bands5": {"C01": None, "C10": ["OSq.Bands.cnotDecompose_ok_shortcut"]},
     "OSq.Proofs.Kron": {"C08": None},
+    "OSq.Proofs.PipelineShape": {"C10": None},
+    "OSq.Proofs.EqBands": {"C06": None, "C16": None},
+    "OSq.Proofs.EqBands2": {"C06": None, "C16": None},
+    "OSq.Proofs.V1Sem": {"C12": None},
+    "OSq.Proofs.V1Sem2": {"C12": None},
     "OSq.Proofs.Snapshots": {"C13": None, "C17": ["OSq.Snap.frame_", "OSq.Snap.step_frame", "OSq.Snap.stepsAvoid_frame", "OSq.Snap.snapshot_independent", "OSq.Snap.mapInPlace_eq_heap_remap", "OSq.Snap.replaceObjs_spec"]},
     "OSq.Proofs.MergeIdem": {"C14": None, "C02": ["OSq.merge_idem_sem"]},
     "OSq.Proofs.GateTable": {"C07": None},
